@@ -1,0 +1,26 @@
+//go:build verif
+
+package syntax
+
+// Verification hooks for property C15 (printed values read back as the same
+// values): direct access to unquote and to the scanner's first token.
+// Add-only; compiled only with -tags verif.
+
+// VerifUnquote calls unquote.
+func VerifUnquote(quoted string) (s string, triple, isByte bool, err error) {
+	return unquote(quoted)
+}
+
+// VerifFirstToken scans the first token of src with the real scanner and
+// returns its kind, raw text, decoded string value (STRING/BYTES) and the
+// number of bytes of src left unread after the token.
+func VerifFirstToken(src []byte) (tok Token, raw, str string, rest int, err error) {
+	sc, err := newScanner("verif", src, false)
+	if err != nil {
+		return 0, "", "", 0, err
+	}
+	defer sc.recover(&err)
+	var val tokenValue
+	tok = sc.nextToken(&val)
+	return tok, val.raw, val.string, len(sc.rest), nil
+}
